@@ -17,6 +17,10 @@
 #undef strndup
 #include <sys/mman.h>
 #include <algorithm>
+#include <sys/wait.h>
+#include <unistd.h>
+#include <fcntl.h>
+#include <errno.h>
 #include <stdarg.h>
 #if defined(__SANITIZE_ADDRESS__)
 #include <sanitizer/asan_interface.h>
@@ -295,6 +299,7 @@ struct Engine : public vf::Engine {
         if (acc || mis) { unsigned x = (unsigned)w.below(10); if (x < 3) residueMode = (int)w.below(73); else if (x < 5) residueMode = 100 + (int)w.range(2, 4); }
         d.p["residue"] = residueMode; d.p["dirty"] = w.chance(3, 4);
         d.p["threadsafe"] = (mis || acc || snd) && w.chance(1, 4);       // the thread-safe wrappers on one thread: same behaviour, other code path
+        d.p["nothrow_trial"] = snd && f.chance(1, 40);    // the one fault combination with a known finding is tried in few runs only (a violating history stops where it fails)
         d.p["realloc0_frees"] = f.chance(1, 2);        // what the platform does with realloc(p, 0): glibc releases p and answers NULL
         d.p["fault_free"] = f.chance(1, 3);             // fault-free and fault-injecting configurations are separate sub-populations
         bool faultFree = d.pi("fault_free") != 0;
@@ -548,6 +553,25 @@ struct Engine : public vf::Engine {
                 bool overflowingCalloc = o.kind == H_CALLOC && o.b != 0 && (size_t)o.c > SIZE_MAX / (size_t)o.b;
                 TestMemoryAllocator* alloc = route == 2 ? modelFor(W, fam) : W.famAllocator[fam];
                 size_t overhead = GUARD + 8 + sizeof(MemoryLeakDetectorNode);
+                if (o.kind == H_ALLOC && route == 2 && fam < 2 && o.s2 == "nothrow" && HEAP.failMallocIn == 0 && d.pi("nothrow_trial") && size <= ((size_t)48 << 20) && size <= SIZE_MAX - overhead
+                    && alloc == (fam == 0 ? defaultNewAllocator() : defaultNewArrayAllocator())) {
+                    // nothrow new x a platform malloc that answers NULL, under the default allocators: tried in a forked child, because the known
+                    // outcome on this tree ends the process (known_findings.json: C05-nothrow-new-terminates)
+                    fired("nothrow_new_with_failing_platform");
+                    fflush(0);
+                    pid_t pid = fork();
+                    if (pid == 0) {
+                        int dn = open("/dev/null", O_WRONLY); if (dn >= 0) dup2(dn, 2);
+                        alarm(10);
+                        char* q = fam == 0 ? (char*)::operator new(size, std::nothrow) : (char*)::operator new[](size, std::nothrow);
+                        _exit(q ? 4 : 0);
+                    }
+                    int st = 0; while (pid > 0 && waitpid(pid, &st, 0) < 0 && errno == EINTR) {}
+                    HEAP.failMallocIn = -1;                      // the fault is consumed by the trial
+                    if (pid > 0 && WIFSIGNALED(st)) fail(W, "C05", "clean_failure", sg("what", "process terminated inside a nothrow operator new"), sfmt("op %zu: new (std::nothrow) of %zu bytes with a platform malloc that answers NULL ended the process with signal %d", oi, size, WTERMSIG(st)));
+                    else if (pid > 0 && WIFEXITED(st) && WEXITSTATUS(st) == 4) fail(W, "C05", "injected_failure", sg2("op", on, "what", "platform malloc failed but a block was returned"), sfmt("op %zu", oi));
+                    break;
+                }
                 bool nothrowUsed = o.kind == H_ALLOC && route == 2 && fam < 2 && o.s2 == "nothrow" && HEAP.failMallocIn < 0 && size <= ((size_t)48 << 20) && size <= SIZE_MAX - overhead;
                 if (nothrowUsed) { file = "<unknown>"; line = 0; }      // the nothrow forms carry no location
                 // does the model expect a failure?
